@@ -60,7 +60,8 @@ PROBES = {"stale_accelerator": 1, "mismatched_accelerator": 1,
           "refs_read_during_packed_refs_rewrite": 1,
           "writer_handle_queried": 1,
           "accelerators_written_while_shallow": 1,
-          "git_style_packed_refs": 1, "tag_moved_after_packing": 1}
+          "git_style_packed_refs": 1, "tag_moved_after_packing": 1,
+          "commit_graph_of_ref_targets_only": 1}
 MIN_BUDGET = 120
 
 ACCEL = ["commit-graph", "midx", "bitmap", "packed-refs"]
@@ -110,6 +111,7 @@ def gen_plan(seed, tier):
             # packed-refs as C git writes it: "peeled fully-peeled" header
             # and a ^line under every annotated tag
             "git_packed": rng.random() < 0.4,
+            "cg_tips_only": rng.random() < 0.08,
             # the accelerators are written while the repository is shallow at
             # some commit (as in a shallow clone); 'unshallow' lifts it later
             "shallow_first": rng.random() < 0.25,
@@ -344,7 +346,14 @@ def run_plan(plan):
                 os.rename(prp + ".new", prp)
                 stats["probe:git_style_packed_refs"] = 1
         if "commit-graph" in acc:
-            r.object_store.write_commit_graph()
+            if plan.get("cg_tips_only"):
+                # the documented "only the ref targets" form
+                r.object_store.write_commit_graph(
+                    sorted(set(v for v in r.refs.as_dict().values()
+                               if v in commits)), reachable=False)
+                stats["probe:commit_graph_of_ref_targets_only"] = 1
+            else:
+                r.object_store.write_commit_graph()
         if "midx" in acc and list(r.object_store.packs):
             r.object_store.write_midx()
         if "bitmap" in acc and list(r.object_store.packs):
@@ -709,6 +718,12 @@ def run_plan(plan):
                     "long-lived-instance-stale"
                 cause = plan["mismatch"] and f"mismatched-{plan['mismatch']}" \
                     or (plan["stale"] and "stale") or "fresh"
+                if plan.get("cg_tips_only") and "commit-graph" in \
+                        plan["accel"] and kind not in (
+                            "get_raw", "contains", "iter", "refs", "keys",
+                            "peeled"):
+                    # (questions a parents provider has a say in)
+                    cause += "/commit-graph-of-ref-targets-only"
                 if isinstance(va, str) and va.startswith("EXC:"):
                     cause += "/raised-" + va[4:]
                 viol(f"{cls}/{kind}/{cause}",
